@@ -97,6 +97,7 @@ def run(ctx):
     from engine.run import borrow
     borrow(ctx, 'C11', ['WH-RESTORE'], 'a header rewrite in SFM_RDWR mode must leave the file position where the next read / write expects it')
     borrow(ctx, 'C04', ['WH-CALC'], 'in SFM_RDWR mode the header update must take its lengths from the real file, not from the current position')
+    borrow(ctx, 'C09', ['WRAPPER'], 'every typed write wrapper advances write_current by the frames written (sibling contract): a wrapper that does not leaves the write position behind the data in SFM_RDWR mode')
 
     ctx.rule('OPEN-NO-NEW-CHUNK', 'the container open functions add a default PEAK chunk (psf->peak_info = peak_info_calloc ...) only for a file that is being created (guarded by '
              'psf->file.mode == SFM_WRITE): an existing file opened SFM_RDWR has no room for a chunk its header did not have, its header could never be rewritten again', floor=3)
